@@ -13,17 +13,20 @@ pub mod model;
 #[cfg(kani)]
 pub mod sym;
 #[cfg(kani)]
-mod c13;
-#[cfg(kani)]
 #[macro_use]
 mod steps;
+
 #[cfg(kani)]
 mod c01;
-#[cfg(kani)]
-mod c04;
 #[cfg(kani)]
 mod c02;
 #[cfg(kani)]
 mod c03;
 #[cfg(kani)]
+mod c04;
+#[cfg(kani)]
 mod c06;
+#[cfg(kani)]
+mod c13;
+#[cfg(kani)]
+mod c19;
